@@ -27,4 +27,15 @@ theorem judge_accepts_model (bytes : List UInt8) (hp : (parse bytes).fail = none
 example : notes (parseRunes (format Fmt.exTree)).tree = notes Fmt.exTree := by
   rw [C07.print_parse _ Fmt.exTree_wf]; exact Spok.notes_norm _
 
+/-- **C15, any number of times**: no comment or docstring is lost, duplicated or moved however often the file is
+    formatted (`C07.fmtB` is one `spok --fmt`, `C07.fmtN n` is `n` of them). -/
+theorem C15_iter (bytes : List UInt8) (hp : (parse bytes).fail = none) (n : Nat) :
+    (parse (C07.fmtN n (C07.fmtB bytes))).fail = none ∧
+    notes (parse (C07.fmtN n (C07.fmtB bytes))).tree = notes (parse bytes).tree := by
+  rw [C07.fmtN_tree bytes hp n]; exact ⟨rfl, Spok.notes_norm _⟩
+
+example : (parse (flat (format Fmt.exTree))).fail = none →
+    notes (parse (C07.fmtN 4 (C07.fmtB (flat (format Fmt.exTree))))).tree = notes (parse (flat (format Fmt.exTree))).tree :=
+  fun h => (C15_iter _ h 4).2
+
 end Spok.Props.C15
